@@ -258,8 +258,21 @@ int main(void)
 			pathlen = 0; visited = 0;
 			if (!acyclic(a)) { puts("cyclic"); continue; }
 			printf("v "); dump(a); putchar('\n');
-		} else if (!strcmp(w[0], "rt") && n == 2 && slot_arg(w[1], &a) && a) {
+		} else if (!strcmp(w[0], "poison") && n == 3 && (!strcmp(w[1], "0") || !strcmp(w[1], "2"))) {
+			/* a document parsed in the builder's context (0) or in the re-parse context (2);
+			 * the result is dropped: only what it leaves behind in the context matters */
+			uint8_t *doc;
+			long len = hc_unhex(w[2], &doc);
+			if (len < 0) { puts("bad-op"); continue; }
+			printf("p %d\n", json_parse(w[1][0] == '0' ? ctx : ctx2, (char *)doc, len) != NULL);
+			free(doc);
+		} else if ((!strcmp(w[0], "rt") || !strcmp(w[0], "rtf") || !strcmp(w[0], "rts")) && n == 2 &&
+			   slot_arg(w[1], &a) && a) {
+			/* render, then json_parse the document: rt = in the re-parse context of this case
+			 * (which has seen every earlier rt and poison 2), rtf = in a fresh context,
+			 * rts = in the very context the value lives in */
 			struct MBuf mb;
+			struct JsonContext *pctx = ctx2, *fresh = NULL;
 			struct JsonValue *v2;
 			char *doc;
 			size_t len;
@@ -272,10 +285,13 @@ int main(void)
 			doc = malloc(len ? len : 1);
 			memcpy(doc, mbuf_data(&mb), len);
 			mbuf_free(&mb);
-			v2 = json_parse(ctx2, doc, len);
+			if (w[0][2] == 'f') pctx = fresh = json_new_context(NULL, 0);
+			else if (w[0][2] == 's') pctx = ctx;
+			v2 = json_parse(pctx, doc, len);
 			if (!v2) puts("rt-fail");
 			else { printf("rt "); dump(v2); putchar('\n'); }
 			free(doc);
+			if (fresh) json_free_context(fresh);
 		} else if (!strcmp(w[0], "parse") && n == 3) {
 			uint8_t *doc;
 			long len = hc_unhex(w[1], &doc);
